@@ -80,7 +80,7 @@ class C15(LoopCheck):
     flows = ("plain", "resume")
     thorough_schedules = ["fixed1", "fixed2", "adaptive_half"]
     adaptive_N3 = ()
-    required_labels = ["c15/history", "c15/final", "c15/checkpoint", "c15/history@resumed", "c15/final@resumed", "c15/api/dtype", "c15/api/values", "c15/api/optional_fields"]
+    required_labels = ["c15/history", "c15/final", "c15/checkpoint", "c15/history@resumed", "c15/final@resumed", "c15/history@aspire", "c15/final@resume_constructor", "c15/api/dtype", "c15/api/values", "c15/api/optional_fields"]
     outside = LoopCheck.outside + [
         "what NumPy, PyTorch and JAX do when an array crosses from one to the other (every ordered pair), the output-namespace option, proposal outputs consumed in another namespace: the symbolic namespace is both source and target of every conversion here",
     ]
@@ -101,6 +101,10 @@ class C15(LoopCheck):
                 if c["flow"] == "resume":
                     c2["routes"] = ["bytes", "live_dict"]
                 out.append(c2)
+        # the top-level route: Aspire(dtype=...) -> sampler; the configuration written to the
+        # file carries the precision, and the instance rebuilt by resume_from_file works in it
+        out.append({"name": "aspire_file-fixed2-float32", "flow": "resume_file", "schedule": "fixed2", "n_final": False, "sampler": "MiniPCNSMC",
+                    "N": 2, "d": 1, "T": 2, "D": 4, "timeout_ms": 120000, "dtype": "float32"})
         for cls in ("BaseSamples", "Samples", "SMCSamples"):
             for sub in ("all", "none"):
                 for op in API_OPS:
